@@ -28,7 +28,7 @@ func genCase(cr *vh.Rng) *gqlgen.Case {
 	if cr.Chance(12) {
 		bad = 15 // malformed stream
 	}
-	c.Query = gqlgen.GenQuery(cr, spec, gqlgen.QOpts{PDir: 30 + cr.Intn(40), PBadDir: bad, Depth: 2 + cr.Intn(2), AllowDup: true})
+	c.Query = gqlgen.GenQuery(cr, spec, gqlgen.QOpts{PDir: 30 + cr.Intn(40), PBadDir: bad, Depth: 2 + cr.Intn(2), AllowDup: true, PUntyped: []int{0, 0, 40, 60}[cr.Intn(4)]})
 	var ch []int
 	for i := 0; i < 16; i++ {
 		ch = append(ch, cr.Intn(7))
@@ -85,7 +85,7 @@ func flipSpread(q *gqlgen.Query, which int) (*gqlgen.Query, string, bool) {
 func main() {
 	o := vh.ParseFlags()
 	run := vh.NewRun("C19", o)
-	run.Rule = "generated schema (reflect.StructOf/MakeFunc through schemabuilder) + data tree + query with @skip/@include on fields, inline fragments, spreads (same fragment spread several times), union member fragments, literal and variable conditions (variables sent, or left to a default declared in the operation); non-trivial = the query carries at least two directives, at least one node is deleted by pruning and the pruned result is a non-empty object; distinct by query text + data"
+	run.Rule = "generated schema (reflect.StructOf/MakeFunc through schemabuilder) + data tree + query with @skip/@include on fields, inline fragments, spreads (same fragment spread several times), union member fragments, inline fragments without type condition, literal and variable conditions (variables sent, or left to a default declared in the operation); non-trivial = the query carries at least two directives, at least one node is deleted by pruning and the pruned result is a non-empty object; distinct by query text + data"
 	r := vh.NewRng(o.Seed)
 
 	var cases []*gqlgen.Case
@@ -170,6 +170,17 @@ func main() {
 		}
 		if obsA.Stage == "harness" || obsP.Stage == "harness" {
 			run.Fail(idx, "escaped-panic-or-timeout", obsA.String()+" / "+obsP.String(), c)
+			continue
+		}
+		if obsA.Stage == "parse" && q.HasUntyped() {
+			// inline fragments without a type condition: an implementation may reject the syntax (this
+			// one does, at Parse) - then there is nothing to compare; if it accepts it, the result must
+			// be that of the pruned query like for any other node
+			run.Hist("rejected:inline-fragment-without-type-condition")
+			if obsA.Class != "client" {
+				run.Fail(idx, "unsupported-syntax-not-a-client-error", obsA.String()+"  "+text, c)
+			}
+			run.Count(text, false)
 			continue
 		}
 		if obsA.Stage == "parse" || obsA.Stage == "prepare" {
